@@ -631,6 +631,21 @@ func main() {
 		"a recovered panic in a session goroutine counts as process termination (lal has no recover)",
 		"memory exhaustion by many simultaneous 16 MiB messages is not explored")
 	if r.ReplayIn != "" {
+		var ac acceptCase
+		if r.LoadReplay(&ac); ac.First != "" {
+			dir := os.Getenv("VERIF_SCRATCH")
+			if dir == "" {
+				dir = os.TempDir()
+			}
+			cf, kf, err := selfSigned(dir)
+			v, err2 := runAccept(ac, cf, kf)
+			if err != nil || err2 != nil {
+				r.Violation("infra/accept-loop", fmt.Sprint(err, err2), ac)
+			} else if v != "" {
+				r.Violation("others-not-served/accept-loop", v, ac)
+			}
+			r.Finish()
+		}
 		var c protox.Case
 		r.LoadReplay(&c)
 		protox.RunLevels([]protox.Case{c}, 1, 120*time.Second, nil, func(o protox.Outcome) { report(r, o) })
@@ -650,6 +665,7 @@ func main() {
 	if n < len(cases) {
 		r.NotExhaustive(fmt.Sprintf("time budget: %d of %d cases executed", n, len(cases)))
 	}
+	acceptPhase(r)
 	var d caseData
 	json.Unmarshal(cases[len(cases)/3].Data, &d)
 	r.Sample(map[string]interface{}{"key": cases[len(cases)/3].Key, "stage": d.Stage, "hex": d.Hex, "frag": d.Frag})
